@@ -219,6 +219,9 @@ func (x *World) execGeneric(op Op, line map[string]interface{}, args map[string]
 		args["v"] = op.V
 		res = guard(func(r *result) {
 			p := newGSingle(op.C, w).Set(e, op.V)
+			if !w.Alive(e) {
+				return // accepted for a stale handle: the line records "no panic", the specification objects
+			}
 			if p != w.Get(e, x.idOf(op.C)) {
 				panic("verif: generic Set returned a pointer different from World.Get")
 			}
@@ -238,9 +241,14 @@ func (x *World) execGeneric(op Op, line map[string]interface{}, args map[string]
 				// positional Get of a MapN: every position must be World.Get of that component
 				args["c"] = 0
 				m := newGMap(op.Ar, w)
-				gp := getpos(m.Get(e), func(i int) unsafe.Pointer { return w.Get(e, x.idOf(i)) })
-				line["getpos"] = gp
+				ptrs := m.Get(e) // the generic call alone decides whether the line records a panic
 				r.ret = op.Ar
+				if !w.Alive(e) {
+					// accepted for a stale handle: nothing to compare with (World.Get rejects it)
+					line["getpos"] = make([]int, len(ptrs))
+					return
+				}
+				line["getpos"] = getpos(ptrs, func(i int) unsafe.Pointer { return w.Get(e, x.idOf(i)) })
 			case "generic.Map1.Has":
 				r.ret = b2i(newGSingle(op.C, w).Has(e))
 			case "generic.Map1.GetRelation":
